@@ -96,7 +96,7 @@ func C07(ctx *Ctx) {
 		lenErr, guardErr, trkErr := "", "", ""
 		for _, r := range e.Runs {
 			m, x := b2i(r.Cell.M8), b2i(r.Cell.X8)
-			refused := !r.Returned && len(r.panicsIn(e.Fn)) > 0 && len(r.Helpers) == 0
+			refused := len(r.refusals()) > 0
 			var dec [2]int
 			for i, rel := range cpuRels {
 				cr := idx[ck{rel, e.Opcode, m, x}]
